@@ -2,6 +2,8 @@ import json
 import pure
 import prio
 import cross
+import limit
+import join
 
 CHECKS = {
     "C01": prio.check_C01,
@@ -14,6 +16,13 @@ CHECKS = {
     "C17": prio.check_C17,
     "C19": cross.check_C19,
     "C20": cross.check_C20,
+    "C03": join.check_C03,
+    "C08": join.check_C08,
+    "C09": join.check_C09,
+    "C10": join.check_C10,
+    "C11": join.check_C11,
+    "C04": limit.check_C04,
+    "C12": limit.check_C12,
     "C13": pure.check_C13,
     "C14": pure.check_C14,
     "C18": pure.check_C18,
@@ -25,6 +34,8 @@ def replay(pid, path):
     with open(path) as f:
         r = json.load(f)
     print("replaying", r.get("what", "")[:300])
+    if pid in ("C04", "C12"):
+        return limit.replay(pid, path)
     kind = r.get("replay", {}).get("kind")
     if kind == "prio-v2-replay":
         return prio.replay_file(pid, r)
